@@ -679,6 +679,7 @@ class Env:
         self.coap_code = "CHANGED"
         self.final_xs = None
         self.xq = []
+        self.restore_mode = None
 
     class ScriptDone(Exception):
         pass
@@ -1041,8 +1042,40 @@ class Env:
             # history says the accessory is out of reach
             if b.client is None and env.ble_connectable:
                 b.client = env.FakeClient()
+            if env.restore_mode is not None:
+                # round 9 (seed Q): the operation had to open a fresh connection (made_connection), so a subscription
+                # restore is pending when the operation finishes (restore_connection_and_resume's finally block)
+                b._restore_pending = True
         b._populate_accessories_and_characteristics = populate
         return b
+
+    def install_restore(self, b):
+        """the collaborators of the REAL BlePairing._async_restore_subscriptions: its first step (fetching the broadcast
+        key) is scripted by env.restore_mode - 'ok' | 'nosubs' | 'ade' (the accessory dropped the link right after its
+        reply: AccessoryDisconnectedError) | 'bleak-once' (BleakError the first time, then fine; retryable)"""
+        from aiohomekit.exceptions import AccessoryDisconnectedError
+        from bleak.exc import BleakError
+        env = self
+        env.restore_runs = 0
+
+        async def set_key():
+            env.restore_runs += 1
+            if env.restore_mode == "ade":
+                raise AccessoryDisconnectedError("scripted: link dropped right after the reply")
+            if env.restore_mode == "bleak-once" and env.restore_runs == 1:
+                raise BleakError("scripted: link dropped right after the reply")
+            if env.restore_mode not in ("ok", "bleak-once"):
+                raise RuntimeError("harness: restore ran in mode %r" % (env.restore_mode,))
+
+        async def sub(subscriptions):
+            return None
+
+        async def params():
+            return None
+        b._async_set_broadcast_encryption_key = set_key
+        b._async_subscribe_broadcast_events = sub
+        b._get_all_protocol_params = params
+        b._async_schedule_start_notify_subscriptions = lambda: None
 
     async def run_mgmt(self, op, reply, status=200, bst=0, short=False):
         self.begin([], reply, default_oracles(), default_oracles(), status,
@@ -1074,7 +1107,15 @@ class Env:
             self.ble = self.make_ble_pairing()
         else:
             self.ip = self.make_ip_pairing()
-        for (method, who, events) in calls:
+        self.restore_mode = None
+        for call in calls:
+            method, who, events = call[:3]
+            if len(call) > 3 and transport == "ble":
+                self.restore_mode = call[3]
+                self.install_restore(self.ble)
+                self.ble.subscriptions.clear()
+                if call[3] != "nosubs":
+                    self.ble.subscriptions.add((1, 10))
             op = transport + method
             pid = OWN_ID if who == "own" else OTHER_ID
             d = default_oracles()
@@ -1221,6 +1262,16 @@ def judge_delivery(kind, what, step_or_op, items, impl, mgmt=False):
 def http_class(cell):
     st = cell["meta"].get("status", "-")
     return st if st in ("-", "200") else st[0] + "xx"
+
+
+def cell_hdr(cell):
+    """name of the extra HTTP header plan the scripted IP accessory used for this cell's reply ('-' if not over HTTP)"""
+    if cell["meta"].get("status", "-") == "-" or cell["t"] in ("U", "L") or cell.get("level") == "coap":
+        return "-"
+    try:
+        return http_hdr_plan(cell_reply(cell), int(cell.get("status", 200)))[0]
+    except Exception:  # noqa
+        return "-"
 
 
 def state_kind(items, exp):
@@ -1484,7 +1535,7 @@ def run(ctx):
             sample = dict(stream=cell["stream"], step=cell["step"], transport=cell["t"], reply=hx(reply)[:96],
                           fields=cell["meta"]["fields"], impl=impl[:60], model=model[:60])
         cov.case(f"{cell['stream']}|{cell['step']}|{cell['t']}|{cell['meta'].get('status', '-')}|{hx(reply)}|{o_tokens(cell['o'])}|{(cell.get('history') or {}).get('description', '')}", nontrivial, sample=sample,
-                 http_status=cell["meta"].get("status", "-"),
+                 http_status=cell["meta"].get("status", "-"), http_header=cell_hdr(cell),
                  stream=cell["stream"], step=cell["step"], transport=cell["t"], result=canon(impl).split(" ")[0] + " " + (impl.split(" ")[1] if impl.startswith("err") else ""),
                  error_code=("n/a" if items is None else err_name(next((v for k, v in items if k == T_ERROR), None))),
                  state=("n/a" if items is None else state_kind(items, 2 if mg else EXP_STATE[cell["step"]])),
@@ -1798,6 +1849,9 @@ def run(ctx):
                 key += "/" + "+".join(sorted(orders))
             if hs != dom_h and hs - {"-"}:
                 key += "/http-" + "+".join(sorted(hs - {"-"})) + "-only"
+            hp = {cell_hdr(c) for c, _, _, _ in lst}
+            if len(lst) >= 3 and len(hp) == 1 and hp <= {"connection-close", "connection-keep-alive", "connection-close-lower"}:
+                key += "/http-header-" + hp.pop() + "-only"
             if {c["stream"] for c, _, _, _ in lst} == {"hist"}:
                 key += "/history-only"
         merged.setdefault(key, []).extend((c, impl, model, verdict, sk, ek) for c, impl, model, verdict in lst)
@@ -1814,6 +1868,8 @@ def run(ctx):
         orders = sorted({x[0]["meta"]["order"] for x in lst})
         name = STEP_NAME.get(step, step)
         http = "" if c["meta"].get("status", "-") == "-" else f", HTTP status {c['meta']['status']}"
+        if cell_hdr(c) not in ("-", "none"):
+            http += f" with extra response header {http_hdr_plan(cell_reply(c), int(c.get('status', 200)))[1].strip()!r}"
         if c["meta"].get("coap_code", "-") not in ("-", "CHANGED"):
             http += f", CoAP code {c['meta']['coap_code']}"
         if c.get("history"):
@@ -1828,7 +1884,8 @@ def run(ctx):
                                reply=hx(cell_reply(c)) if c["t"] != "L" else None,
                                items=[(k, hx(v)) for k, v in (c["items"] or [])], oracles={k: (hx(v) if isinstance(v, bytes) else v) for k, v in c["o"].items()},
                                impl=impl, model=model, expected=verdict[2], failing_cells=len(lst),
-                               transports=ts, layouts=orders[:8], http_status=c["meta"].get("status", "-"),
+                               transports=ts, layouts=orders[:8], http_status=c["meta"].get("status", "-"), http_extra_header=cell_hdr(c),
+                               http_extra_headers=sorted({cell_hdr(x[0]) for x in lst}),
                                coap_code=c["meta"].get("coap_code", "-"), history=c.get("history"),
                                ble_exchanges=[(x[0], hx(x[1])) for x in c["ble"]["xs"]] if c.get("ble") else None,
                                ble_pdu_frag=(c.get("ble") or {}).get("pdu_frag"),
